@@ -9,7 +9,8 @@
    a field pointer is an offset into ConfI.  They are released with the entry (no path frees them while a pointer survives: the code
    recomputes the field pointers whenever it reallocates), so they are kept inside the entry.
 
-   Numbers.  unsigned long is 64 bits (LP64), N2kMillis() is the 32-bit clock value [now] (an input of every message), uint8_t/uint16_t
+   Numbers.  N2kMillis() is the 32-bit clock value [now] (an input of every message; the stored times are only compared through
+   N2kHasElapsed in uint32_t, so the width of unsigned long does not matter), uint8_t/uint16_t
    members are written with their wrap where a wrap is reachable.  Text: a char* getter result is the C string it points to (bytes
    before the first NUL).  The fixed product information strings are given functionally (what GetStr(33,buf,32,0xff) leaves as C string:
    the 32 payload bytes cut at the first 0x00/0xFF); the variable strings of the configuration information go through the byte-level
@@ -21,9 +22,11 @@
        InitConfigurationInformation recomputes the field pointers also when it re-uses the buffer
      - ParseN2kPGN126996 refuses payloads shorter than the 134 bytes of product information
      - the constructor of tInternalDevice initialises LastMessageTime (it was read uninitialised for a placeholder entry).
-   Modelled as it is, not repaired: the request pacing compares against stored times in which 0 means "never" (finding D-20 of C13: the
-   behaviour depends on the clock origin), and a device displaced from its address is parked in the first free slot of Sources[] as if
-   it had that address (known finding "parked-device" of C18). *)
+     - the three ReadyForRequest... tests decide "never requested" by the request counter and test every elapsed time with N2kHasElapsed
+       on the 32-bit values (D-20 of C13: with the time value 0 as "never" and a subtraction in unsigned long the pacing depended on
+       the clock origin and on the width of unsigned long); pacing_shift in Proofs/DevListProofs.v states the independence.
+   Modelled as it is, not repaired: a device displaced from its address is parked in the first free slot of Sources[] as if it had that
+   address (known finding "parked-device" of C18). *)
 From Coq Require Import ZArith List Bool.
 From N2kV Require Import Base.Res Base.ListAux Model.TextDefs.
 Import ListNotations ResNotations.
@@ -362,18 +365,15 @@ Definition handle_list (m:bmsg) (st:state) : res state :=
 (* ---------- HandleOther: the request pacing ---------- *)
 (* N2kHasElapsed(Start,Elapsed,Now) = Now-(Start+Elapsed)<INT32_MAX in uint32_t *)
 Definition has_elapsed (start el now:Z) : bool := (now - (start + el)) mod two32 <? int32max.
-(* N2kMillis()-X>1000 with X unsigned long (64 bit) *)
-Definition later64 (now x:Z) : bool := (now - x) mod two64 >? 1000.
-
 Definition should_pi (e:entry) : bool := negb (e_pil e) && (e_npi e <? 4).
-Definition ready_pi (now:Z) (e:entry) : bool := should_pi e && has_elapsed (e_pireq e) 1000 now && has_elapsed (e_ctime e) 1000 now.
+Definition ready_pi (now:Z) (e:entry) : bool := should_pi e && ((e_npi e =? 0) || has_elapsed (e_pireq e) 1000 now) && has_elapsed (e_ctime e) 1000 now.
 Definition mark_pi (now:Z) (e:entry) : entry := with_pi e (e_pil e) (e_pi e) now (e_npi e + 1).
 Definition should_ci (e:entry) : bool := negb (e_cil e) && (e_nci e <? 4).
-Definition ready_ci (now:Z) (e:entry) : bool := should_ci e && later64 now (e_cireq e) && later64 now (e_ctime e).
+Definition ready_ci (now:Z) (e:entry) : bool := should_ci e && ((e_nci e =? 0) || has_elapsed (e_cireq e) 1000 now) && has_elapsed (e_ctime e) 1000 now.
 Definition mark_ci (now:Z) (e:entry) : entry := with_req e (e_nname e) now (e_nci e + 1) (e_pgreq e) (e_npg e) (e_lmt e).
 Definition is_none {A} (o:option A) : bool := match o with None => true | Some _ => false end.
 Definition should_pg (e:entry) : bool := (is_none (e_tx e) || is_none (e_rx e)) && (e_npg e <? 4).
-Definition ready_pg (now:Z) (e:entry) : bool := should_pg e && has_elapsed (e_pgreq e) 1000 now && has_elapsed (e_ctime e) 1000 now.
+Definition ready_pg (now:Z) (e:entry) : bool := should_pg e && ((e_npg e =? 0) || has_elapsed (e_pgreq e) 1000 now) && has_elapsed (e_ctime e) 1000 now.
 Definition mark_pg (now:Z) (e:entry) : entry := with_req e (e_nname e) (e_cireq e) (e_nci e) now (e_npg e + 1) (e_lmt e).
 
 (* one of the three loops "for (i=0; i<MaxDevices; i++) if (Sources[i]!=0) { if (Ready) { if (Request) {Set; pending=true; return;} } else pending|=Should }":
@@ -474,6 +474,12 @@ Fixpoint run (h:list event) (st:state) : res state :=
   match h with
   | [] => Ok st
   | (now, ok, m) :: r => x <- handle_msg now ok m st ;; run r (fst x)
+  end.
+(* the ISO requests the list sends, message by message *)
+Fixpoint run_log (h:list event) (st:state) : res (list (list req)) :=
+  match h with
+  | [] => Ok []
+  | (now, ok, m) :: r => x <- handle_msg now ok m st ;; l <- run_log r (fst x) ;; Ok (snd x :: l)
   end.
 
 (* ---------- what the application reads (const tDevice* getters) ---------- *)
